@@ -580,6 +580,13 @@ func (x *Exec) callMods(c *ssa.CallCommon, li *loopInfo, seen map[*ssa.Function]
 		return
 	}
 	if fc := x.prog.contractFor(callee); fc != nil && !fc.Inline && !x.inlineHere(fc) {
+		if modifiesEverything(fc) {
+			li.modAll = true
+			li.modAllOK = true
+			li.allocs = true
+			li.keeps = nil
+			return
+		}
 		keys, allocs, all := x.prog.modifiesKeys(x, callee, fc)
 		for _, k := range keys {
 			li.modHeap[k] = true
